@@ -51,6 +51,8 @@ def sight(cell):
     prev = None
     for c in CORR:
         d, w = pb.Unit.Mil(c), pb.Unit.Mil(-c / 2)
+        # the sight object is long-lived: calls for other distances / magnifications in between must leave nothing behind
+        s.get_adjustment(U(tdu)(td * 3), pb.Unit.Mil(0.7), pb.Unit.Mil(0.2), mag * 2)
         r = s.get_adjustment(U(tdu)(td), d, w, mag)
         n += 1
         for axis, got, corr in (('v', r.vertical, d.raw_value), ('h', r.horizontal, w.raw_value)):
